@@ -7,16 +7,20 @@ import (
 	"encoding/json"
 	"errors"
 	"fmt"
+	"io"
 	"regexp"
 	"sort"
 	"strings"
+	"sync"
 	"testing"
 	"testing/synctest"
 
 	"github.com/vektah/gqlparser/v2"
 	gast "github.com/vektah/gqlparser/v2/ast"
 
+	"github.com/wundergraph/graphql-go-tools/execution/engine"
 	"github.com/wundergraph/graphql-go-tools/execution/graphql"
+	"github.com/wundergraph/graphql-go-tools/v2/pkg/engine/resolve"
 
 	"verif/internal/fedlab"
 	"verif/internal/fedorders"
@@ -203,10 +207,32 @@ func execWith(lab *fedlab.Lab, q string, slowFlush bool) obs {
 	return execWriter(lab, q, &frameWriter{slow: slowFlush})
 }
 
-func execWriter(lab *fedlab.Lab, q string, w *frameWriter) obs {
+func execWriter(lab *fedlab.Lab, q string, w *frameWriter, opts ...engine.ExecutionOptions) obs {
 	lab.Sim.Reset()
-	err := lab.Engine.Execute(context.Background(), &graphql.Request{Query: q}, w)
+	err := lab.Engine.Execute(context.Background(), &graphql.Request{Query: q}, w, opts...)
 	return obs{w: w, err: err}
+}
+
+// failingLimiter: the pre-fetch rate limiter fails hard for the k-th fetch it is
+// asked about (a hard fetch-phase error of whichever defer group that is).
+type failingLimiter struct {
+	mu    sync.Mutex
+	n, at int
+	fired bool
+}
+
+func (l *failingLimiter) RateLimitPreFetch(ctx *resolve.Context, info *resolve.FetchInfo, input json.RawMessage) (*resolve.RateLimitDeny, error) {
+	l.mu.Lock()
+	defer l.mu.Unlock()
+	l.n++
+	if l.n == l.at {
+		l.fired = true
+		return nil, errors.New("rate limiter unavailable")
+	}
+	return nil, nil
+}
+func (l *failingLimiter) RenderResponseExtension(ctx *resolve.Context, out io.Writer) error {
+	return nil
 }
 
 func strField(m map[string]any, k string) (string, bool) {
@@ -480,12 +506,14 @@ func TestCheck(t *testing.T) {
 		Family string `json:"family"`
 		Op     string `json:"op"`
 		Order  []int  `json:"order"`
+		Lim    int    `json:"limiter_fails_at"`
 	}
 	if run.Replay != "" {
 		rin = &struct {
 			Family string `json:"family"`
 			Op     string `json:"op"`
 			Order  []int  `json:"order"`
+			Lim    int    `json:"limiter_fails_at"`
 		}{}
 		if err := run.ReplayInput(rin); err != nil {
 			t.Fatal(err)
@@ -598,6 +626,20 @@ func TestCheck(t *testing.T) {
 								Input:  map[string]any{"family": f.name, "op": q, "order": x.Choices}})
 						}
 					}
+					if rin != nil && rin.Lim > 0 {
+						lim := &failingLimiter{at: rin.Lim}
+						wf := &frameWriter{slow: true}
+						fedorders.RunOne(lab.Sim, nil, func() any { return execWriter(lab, q, wf, engine.VerifWithRateLimiter(lim)) })
+						run.Eval(1)
+						fmt.Printf("the rate limiter fails hard for fetch %d\n%s\n", rin.Lim, strings.Join(wf.frames, "\n"))
+						for i, fr := range wf.frames {
+							if !json.Valid([]byte(fr)) {
+								run.Violate(vk.Violation{Clause: "the stream is well-formed", Site: "frame is not one JSON value (hard fetch error)", Class: f.name + deferClass(f.s, q), Detail: fmt.Sprintf("frame %d: %s", i, fr)})
+								break
+							}
+						}
+						continue
+					}
 					if rin != nil {
 						x := fedorders.RunOne(lab.Sim, rin.Order, func() any { return exec(lab, q) })
 						run.Eval(1)
@@ -634,6 +676,45 @@ func TestCheck(t *testing.T) {
 							run.Violate(vk.Violation{Clause: fl.clause, Site: fl.site, Class: f.name + deferClass(f.s, q),
 								Detail: fmt.Sprintf("operation %s\nflush %d fails\n%s", q, k, fl.detail),
 								Input:  map[string]any{"family": f.name, "op": q, "order": []int{}, "fail_flush": k}})
+						}
+					}
+					// a HARD fetch-phase error in one defer group (the pre-fetch rate limiter
+					// fails for the k-th fetch), flushes slow: the error frame of that group and
+					// the frames of its siblings must not mix, and the stream still terminates
+					if strings.Count(q, "@defer") >= 2 && !allDefersDisabled(q) {
+						for k := 2; k <= 5; k++ {
+							lim := &failingLimiter{at: k}
+							wf := &frameWriter{slow: true}
+							x := fedorders.RunOne(lab.Sim, nil, func() any { return execWriter(lab, q, wf, engine.VerifWithRateLimiter(lim)) })
+							if !lim.fired {
+								break
+							}
+							execs++
+							run.Count("hard_fetch_error_executions", 1)
+							var ff []fail
+							o := x.Obs.(obs)
+							if x.Stuck {
+								ff = append(ff, fail{"the stream always terminates", "execution wedged after a hard fetch error", strings.Join(wf.calls, " ")})
+							} else if o.err == nil {
+								for i, fr := range wf.frames {
+									if !json.Valid([]byte(fr)) {
+										ff = append(ff, fail{"the stream is well-formed", "frame is not one JSON value (hard fetch error)", fmt.Sprintf("frame %d: %s", i, fr)})
+										break
+									}
+								}
+								if len(ff) == 0 {
+									if wf.completes != 1 {
+										ff = append(ff, fail{"the stream always terminates", fmt.Sprintf("Complete called %d times after a hard fetch error", wf.completes), strings.Join(wf.calls, " ")})
+									} else if len(wf.afterDone) > 0 {
+										ff = append(ff, fail{"the stream is well-formed", "writer call after Complete (hard fetch error)", strings.Join(wf.afterDone, " ")})
+									}
+								}
+							}
+							for _, fl := range ff {
+								run.Violate(vk.Violation{Clause: fl.clause, Site: fl.site, Class: f.name + deferClass(f.s, q),
+									Detail: fmt.Sprintf("operation %s\nthe rate limiter fails hard for fetch %d\n%s\nframes:\n%s", q, k, fl.detail, strings.Join(wf.frames, "\n")),
+									Input:  map[string]any{"family": f.name, "op": q, "order": []int{}, "limiter_fails_at": k}})
+							}
 						}
 					}
 					run.Eval(int64(execs))
